@@ -185,13 +185,23 @@ def _op(m):
 class C10(Property):
     id = "C10"
     title = "Mapping elements hold exactly the schema's fields, always as elements"
-    proof_module = "Proofs.C10"
+    proof_module = "Proofs.C10Keys"
     theorems = [
         "Flatland.C10.Proofs.mapinv_init",
         "Flatland.C10.Proofs.mapinv_step",
         "Flatland.C10.Proofs.mapinv_run",
         "Flatland.C10.Proofs.named_after_key",
         "Flatland.C10.Proofs.undeclared_rejected",
+        "Flatland.C10.Proofs.undeclared_never_stored_step",
+        "Flatland.C10.Proofs.undeclared_never_stored",
+        "Flatland.C10.Proofs.keys_exact",
+        "Flatland.C10.Proofs.keys_exact_nodup",
+        "Flatland.C10.Proofs.sparse_keys",
+        "Flatland.C10.Proofs.update_stops_at_undeclared",
+        "Flatland.C10.Proofs.updateArgs_stops_at_undeclared",
+        "Flatland.C10.Proofs.update_undeclared_rejected",
+        "Flatland.C10.Proofs.set_undeclared_rejected",
+        "Flatland.C10.Proofs.set_undeclared_ignored",
         "Flatland.C10.Proofs.C10_full_fails",
         "Flatland.C10.Proofs.required_survives_optional_member",
     ]
@@ -202,11 +212,21 @@ class C10(Property):
                   "override (instance-level optional= is allowed since /repo 6e22928: del/pop consult the field schema; "
                   "required_survives_optional_member is the former KF-C10-b counter-example as a theorem). Without "
                   "ArgExact the statement is refuted: C10_full_fails (renamed subclass / foreign name, KF-C10-a). "
-                  "undeclared_rejected is a theorem for setitem/del/pop/setdefault/get only. On model paths answering "
-                  "`unsupported` (Element handed to a dense Dict whose child is a container, non-empty list handed to "
-                  "Dict.set ...) the step theorem is vacuous: the node is unchanged. ORACLE ONLY: rejection of undeclared "
-                  "keys by update/|=/set(strict|subset); Compound (DateYYYYMMDD) roots; set_flat/from_flat; the "
-                  "`unsupported` paths. Declarative Schema roots are modelled as Dict and compared")
+                  "User-facing corollaries for EVERY call and every history (same guard): undeclared_never_stored(_step) "
+                  "— no member under an undeclared key, every member an element of a declared field class under that "
+                  "field's name with the mapping as stored parent; keys_exact(_nodup) — a Dict's key list is exactly "
+                  "the declared names in declaration order; sparse_keys — SparseDict keys are declared ones and the "
+                  "required ones are present under minimum_fields='required'. Rejection of undeclared keys is a theorem "
+                  "for every call naming one: undeclared_rejected (setitem/del/pop/setdefault/get: raises, state "
+                  "untouched), update_stops_at_undeclared / updateArgs_stops_at_undeclared / update_undeclared_rejected "
+                  "(update dict|pairs|kwargs, |=, Element values: pairs before the first undeclared key applied, "
+                  "TypeError there, the rest never applied), set_undeclared_rejected (strict/subset, argument or class "
+                  "policy: KeyError after _reset()), set_undeclared_ignored (duck/None: same call without the undeclared "
+                  "pairs). On model paths answering `unsupported` (Element handed to a dense Dict whose child is a "
+                  "container, non-empty list handed to Dict.set ...) the step theorem is vacuous: the node is unchanged. "
+                  "Not proved: pairwise distinct keys of a SparseDict (dict semantics in Python, a list in the model). "
+                  "ORACLE ONLY: Compound (DateYYYYMMDD) roots; set_flat/from_flat; the `unsupported` paths. "
+                  "Declarative Schema roots are modelled as Dict and compared")
     technique = "invariant proof over operation histories (Lean 4) + differential testing against the implementation"
     trusted_base = [
         "dict insertion order and key replacement semantics of CPython dict (modelled as an ordered list of children)",
